@@ -118,6 +118,14 @@ func fieldIndex(T *types.Named, name string) (*types.Struct, int) {
 			return st, i
 		}
 	}
+	// renamed: the field that stands for the reference name
+	if actual, ok := fieldAliasFromRef[lastSeg(typeString(T))+"."+name]; ok {
+		for i := 0; i < st.NumFields(); i++ {
+			if st.Field(i).Name() == actual {
+				return st, i
+			}
+		}
+	}
 	return st, -1
 }
 
@@ -684,7 +692,19 @@ func ruleOuterLockAroundLeaf(c *Ctx, le *LockEngine, rule string) int {
 			case ctor == nil:
 				okH, whyH = false, "cannot find where Writer builds its stream handle; cannot certify"
 			case !inSame:
+				// fine if the method itself holds the directory's outer write lock from the helper call to the constructor
 				okH, whyH = false, "the stream handle is built in "+fname(method)+" after the helper "+fname(f)+" has released the directory lock"
+				la2 := le.Analyze(method)
+				for _, hc := range Calls(method) {
+					if hc.Static != f {
+						continue
+					}
+					for k, m := range la2.HeldBefore(ctor.Instr) {
+						if m == 'W' && strings.HasSuffix(k, fmt.Sprintf(".&f%d", outer)) && la2.HeldBefore(hc.Instr)[k] == 'W' && !la2.releasedBetween(k, hc.Instr, ctor.Instr) {
+							okH, whyH = true, ""
+						}
+					}
+				}
 			default:
 				key := fmt.Sprintf("%s.&f%d", keyP(gets[0].Recv()), outer)
 				if mm, has := la.HeldBefore(ctor.Instr)[key]; !has || mm != 'W' {
